@@ -701,3 +701,89 @@ func r1snnX(c *core.Ctx, R string, x *xModel) bool {
 	c.Check(ok, R, "RegisterUE:serving-network-name", pos, "zero pad exactly when len(mnc) == 2 (evaluated per path)", "the serving network name must be 5G:mnc<3 digits>.mcc<mcc>.3gppnetwork.org (TS 24.501 9.12.1): %s", why)
 	return true
 }
+
+// r2psiAcrossX: the drivers of one UE's session name the session alike: the identity a later
+// driver puts into its NGAP answer (and NAS message) is the one EstablishPDU used. The abstract
+// identities are compared by name after renaming each driver's UE parameter; identities that are
+// spelled differently are folded on sample SUPI numbers, and only a sample on which they differ
+// (a witness) makes a violation - otherwise the question stays open.
+func r2psiAcrossX(c *core.Ctx, R string, xs map[string]*xModel) {
+	type ident struct {
+		v    core.AVal
+		ue   string
+		pos  token.Pos
+		what string
+	}
+	psiCtors := map[string]bool{"GetUlNasTransport_PduSessionEstablishmentRequest": true, "GetUlNasTransport_PduSessionReleaseRequest": true,
+		"GetUlNasTransport_PduSessionReleaseComplete": true, "GetUlNasTransport_PduSessionModificationRequest": true}
+	ngap, nasl := map[string]ident{}, map[string]ident{}
+	for _, n := range []string{"EstablishPDU", "ServiceRequest", "ReleasePDU", "ModifyPDU"} {
+		x := xs[n]
+		if x == nil || x.err != "" || len(x.paths) == 0 {
+			continue
+		}
+		p := x.paths[0]
+		for _, s := range p.sends {
+			if s.wrap != nil {
+				for i, role := range s.roles {
+					if role == "pdu" && i < len(s.wrap.Args) {
+						if _, had := ngap[n]; !had {
+							ngap[n] = ident{s.wrap.Args[i], x.ue, s.wrap.Site.Pos(), s.wrapper}
+						}
+					}
+				}
+			}
+			if s.nas != nil && s.nas.ctor != nil && psiCtors[s.nas.ctorName] {
+				if _, had := nasl[n]; !had {
+					nasl[n] = ident{s.nas.ctor.Args[0], x.ue, s.nas.ctor.Site.Pos(), s.nas.ctorName}
+				}
+			}
+		}
+	}
+	norm := func(id ident) string { return strings.ReplaceAll(nm(id.v), id.ue+".", "ue.") }
+	fold := func(id ident, sample uint64) (uint64, bool) {
+		return core.EvalBits(id.v.Bits, func(src string) (uint64, bool) {
+			if strings.HasPrefix(src, "call:strconv.Atoi(") && strings.Contains(src, id.ue+".Supi") {
+				return sample, true
+			}
+			return 0, false
+		})
+	}
+	compare := func(layer string, m map[string]ident) {
+		ref, has := m["EstablishPDU"]
+		if !has {
+			return
+		}
+		for _, n := range []string{"ServiceRequest", "ReleasePDU", "ModifyPDU"} {
+			id, ok := m[n]
+			if !ok {
+				continue
+			}
+			key := n + ":pdu-session-id:same-as-EstablishPDU:" + layer
+			if id.v.K != core.AInt || ref.v.K != core.AInt || hasMix(id.v) || hasMix(ref.v) {
+				c.SoftUndecided("%s %s: the identity could not be followed", R, key)
+				continue
+			}
+			if norm(id) == norm(ref) {
+				c.Ok(R, key, id.pos, "the same expression of the UE's SUPI as in EstablishPDU")
+				continue
+			}
+			witness := ""
+			for _, sample := range []uint64{1, 7, 15, 16, 23, 255, 256, 300, 9999, 10015, 123456} {
+				a, okA := fold(ref, sample)
+				b, okB := fold(id, sample)
+				if okA && okB && a != b {
+					witness = fmt.Sprintf("for a SUPI ending in %d EstablishPDU names session %d and %s names session %d", sample, a, n, b)
+					break
+				}
+			}
+			if witness != "" {
+				c.Fail(R, key, id.pos, "%s (%s) and EstablishPDU derive the PDU session identity of one UE differently at the %s layer: %s - the network is asked about a session that was never established", n, id.what, layer, witness)
+			} else {
+				c.SoftUndecided("%s %s: %s spells the PDU session identity %s, EstablishPDU %s; no sample separates them and the rule cannot prove them equal", R, key, n, clip(norm(id)), clip(norm(ref)))
+			}
+		}
+	}
+	compare("NGAP", ngap)
+	compare("NAS", nasl)
+}
